@@ -179,13 +179,34 @@ def run(repo: Repo, chk: Check) -> None:
 
     chk.set_clause('C21.2')
     fr = repo.cls(f'{B}.BLS12_381_FrType')
-    mod = repo.fold(fr.attrs['modulus'], fr.module) if 'modulus' in fr.attrs else None
+    mod_at = repo.class_attr(fr.qualname, 'modulus')
+    mod = repo.fold(mod_at[1], mod_at[0].module) if mod_at is not None else None
     chk.ob('R-TABLE', fr.qualname, mod == R_ORDER, 'modulus is the scalar field order r', fr.loc, {'modulus': hex(mod) if isinstance(mod, int) else None}, what='Fr modulus differs from the BLS12-381 scalar field order')
-    fv = fr.methods['from_value']
+    fv = repo.find_method(fr.qualname, 'from_value')  # wherever in the hierarchy it lives
+    if fv is None:
+        raise AnalysisError('C21: BLS12_381_FrType has no from_value')
     res = Interp(repo, _LenHooks(), max_depth=1).run_function(fv, [Sym('value', 'int')], self_val=ClassRef(fr.qualname))
-    ok = len(res) == 1 and isinstance(res[0].value, Obj) and vrepr(res[0].value.fields.get('value')) == f'op:Mod($value, {R_ORDER})'
-    chk.ob('R-TEMPLATE', fv.qualname, ok, 'from_value reduces modulo r', fv.loc, {'value': vrepr(res[0].value.fields.get('value')) if res and isinstance(res[0].value, Obj) else None},
-           what='Fr values are not reduced modulo the field order')
+
+    def reduced(p) -> bool:
+        """the stored value is value mod r, or the value itself on a path whose conditions put it inside 0 <= value < r"""
+        if p.outcome != 'return' or not isinstance(p.value, Obj):
+            return False
+        stored = vrepr(p.value.fields.get('value'))
+        if stored == f'op:Mod($value, {R_ORDER})':
+            return True
+        if stored != '$value':
+            return False
+        conds = [(vrepr(c), b) for c, b in p.conds]
+        below = any((c in (f'<($value, {R_ORDER})', f'>({R_ORDER}, $value)', f'<=($value, {R_ORDER - 1})', f'>=({R_ORDER - 1}, $value)') and b)
+                    or (c in (f'>=($value, {R_ORDER})', f'<=({R_ORDER}, $value)', f'>($value, {R_ORDER - 1})') and not b) for c, b in conds)
+        above = any((c in ('>=($value, 0)', '<=(0, $value)', '>($value, -1)', '<(-1, $value)') and b) or (c in ('<($value, 0)', '>(0, $value)') and not b) for c, b in conds)
+        return below and above
+
+    ok = bool(res) and all(reduced(p) for p in res)
+    chk.ob('R-TEMPLATE', fv.qualname, ok, 'from_value reduces modulo r', fv.loc,
+           {'paths': [(p.cond_repr(), vrepr(p.value.fields.get('value')) if isinstance(p.value, Obj) else p.outcome) for p in res][:4]},
+           what='Fr values are not reduced modulo the field order on every path: ' +
+                '; '.join(f'[{p.cond_repr()}] stores {vrepr(p.value.fields.get("value")) if isinstance(p.value, Obj) else p.outcome}' for p in res if not reduced(p))[:300])
     b2i = fr.methods['bytes_to_int']
     res = Interp(repo, _LenHooks(), max_depth=1).run_function(b2i, [Sym('value', 'bytes')])
     acc = [p for p in res if p.outcome == 'return']
